@@ -4399,6 +4399,10 @@ class NameCheckVisitor(node_visitor.ReplacingNodeVisitor):
         # loop_scopes is None outside of function scopes, which have no real subscopes
         if (
             always_entered
+            # Only a constant test ("while True:") stays true forever. A variable
+            # that holds a truthy literal when the loop is entered may be rebound or
+            # mutated by the body ("while x: x = x[1:]"), so the loop can end.
+            and isinstance(node.test, ast.Constant)
             and loop_scopes is not None
             and all(LEAVES_LOOP not in scope for scope in loop_scopes)
         ):
